@@ -204,7 +204,15 @@ def _loop(prop, cfg, st, rng, given_ops, res, log, budget, allow_restart):
             res.nontrivial = res.nontrivial or bool(prop.nontrivial(st))
             return None  # state now lives (and died) in the child
 
-        out, v = prop.execute(st, op)
+        try:
+            out, v = prop.execute(st, op)
+        except BaseException as exc:  # pylint: disable=broad-except
+            if type(exc).__name__ == "Watchdog" and getattr(prop, "nontermination_is_violation", False):
+                # the call did not come back within the run's wall budget: keep
+                # the history up to and including it, so that it can be replayed
+                out, v = {"exc": "<did not return>"}, viol(f"{prop.id}/nontermination", {"op": op})
+            else:
+                raise
         if out is None and v is None:
             # skipped (labels missing): not part of the history
             continue
